@@ -1081,7 +1081,7 @@ def collect(tier, seed, jobs=16, only=None, progs=None):
     mismatches, coq_err = [], []
     guard_out, eval_codes, thm_codes = set(), collections.Counter(), collections.Counter()
     mixed, literal = set(), set()
-    hyg_out, wf_out = set(), set()
+    hyg_out, wf_out, class_out = set(), set(), set()
     eval_dis, thm_fail, eval_only_shadow, eval_dis_ids = [], [], [], []
     checked = set()
     if ok_vo:
@@ -1113,10 +1113,12 @@ def collect(tier, seed, jobs=16, only=None, progs=None):
                                        implementation_raised=r.get("raised"), file=name))
             guard_out.update(lg)
             for code in lsd:
-                if code % 10 in (1, 3):
+                if code % 10 & 1:
                     hyg_out.add(code // 10)
-                if code % 10 in (2, 3):
+                if code % 10 & 2:
                     wf_out.add(code // 10)
+                if code % 10 & 4:
+                    class_out.add(code // 10)
             for code in lmx:
                 if code % 10 in (1, 3):
                     mixed.add(code // 10)
@@ -1168,7 +1170,9 @@ def collect(tier, seed, jobs=16, only=None, progs=None):
                           heavy_multiplications=len([r for r in okr if r.get("heavy")]),
                           constructs=dict(used.most_common()), coq_files=len(files),
                           outside_theorem_guards=len(guard_out),
-                          guard_is="seq_ok only (stmt_guard / body_guard of M_Texp.v)",
+                          guard_is="every statement in the syntactic class (stmt_class), or seq_ok evaluated (body_guard2 of M_Texp.v)",
+                          accepted_with_a_statement_outside_the_class=len(class_out),
+                          outside_class_examples=[by_id[i]["src"] for i in sorted(class_out)[:8]],
                           numbering_table_fails_hygiene=len(hyg_out - guard_out),
                           outside_signature_hypotheses=len(wf_out),
                           outside_hypotheses_examples=[by_id[i]["src"] for i in sorted(wf_out | (hyg_out - guard_out))[:10]],
